@@ -47,6 +47,14 @@ open Mutagen.Model.Lifecycle
 @[simp] theorem op_wf_7 : Op.isWaitingFlush .terminate = false := rfl
 @[simp] theorem op_wf_8 : Op.isWaitingFlush .restart = false := rfl
 
+@[simp] theorem op_isReset_1 (p : Bool) : Op.isReset (.create p) = false := rfl
+@[simp] theorem op_isReset_2 : Op.isReset .pause = false := rfl
+@[simp] theorem op_isReset_3 : Op.isReset .resume = false := rfl
+@[simp] theorem op_isReset_4 (w : Bool) : Op.isReset (.flush w) = false := rfl
+@[simp] theorem op_isReset_5 : Op.isReset .reset = true := rfl
+@[simp] theorem op_isReset_6 : Op.isReset .terminate = false := rfl
+@[simp] theorem op_isReset_7 : Op.isReset .restart = false := rfl
+
 /-! ## Frame lemma: what a step of the run loop can change -/
 
 set_option maxHeartbeats 4000000 in
@@ -55,7 +63,7 @@ set_option maxRecDepth 10000 in
 session file, the registry and the client calls' phases alone. -/
 theorem loopSteps_frame {s : State} {l : Loop} {lab : Label} {s' : State} (h : (lab, s') ∈ loopSteps s l) :
     s'.sess = s.sess ∧ s'.entry = s.entry ∧ s'.disabled = s.disabled ∧ s'.running = s.running ∧
-    s'.crit = s.crit ∧ s'.gen = s.gen ∧ s'.watch = s.watch ∧ s'.used = s.used ∧
+    s'.crit = s.crit ∧ s'.gen = s.gen ∧ s'.watch = s.watch ∧ s'.used = s.used ∧ s'.resetting = s.resetting ∧
     s'.threads.map (fun t => (t.id, t.op, t.ph)) = s.threads.map (fun t => (t.id, t.op, t.ph)) := by
   unfold loopSteps at h
   split at h
@@ -85,7 +93,7 @@ theorem invA_init (w : Bool) : InvA (init w) := by
 
 theorem invA_loop {s : State} {l : Loop} {lab : Label} {s' : State} (hl : s.loop = some l)
     (h : (lab, s') ∈ loopSteps s l) (i : InvA s) : InvA s' := by
-  obtain ⟨h1, h2, h3, h4, h5, _, _, _, h9⟩ := loopSteps_frame h
+  obtain ⟨h1, h2, h3, h4, h5, _, _, _, _, h9⟩ := loopSteps_frame h
   have hr : s.running = true := i.loop_running (by simp [hl])
   constructor
   · intro _; rw [h4]; exact hr
